@@ -304,6 +304,21 @@ def array_pool(ctx, round):
                         fields.append(["t%d" % i, "i", 1, "|", []])
                 for sh in ([[], [2]] if ctx.quick() else [[], [2], [2, 2], [0]]):
                     pool.append((arr_case(r, {"fields": fields}, sh), "struct-uniform-with-|" if nelem(sh) else "zero-size"))
+        # adversarial: ALL multi-byte fields are sub-arrays (dtype.isnative / dtype.byteorder of such a structure say
+        # nothing about them), alone and with byte-string / single-byte fields around them, every spelling
+        for o in ("<", ">", "="):
+            for lay in (["a"], ["a", "a"], ["S", "a"], ["a", "u"], ["u", "a", "S"], ["a", "S", "a"], ["a2"]):
+                fields = []
+                for i, t in enumerate(lay):
+                    if t in ("a", "a2"):
+                        k, s = r.choice([("i", 2), ("i", 4), ("f", 4), ("f", 8), ("c", 8), ("u", 8), ("U", 4)])
+                        fields.append(["v%d" % i, k, s, o, [2, 2] if t == "a2" else r.choice([[2], [3], [1]])])
+                    elif t == "S":
+                        fields.append(["s%d" % i, "S", r.choice([1, 3, 5]), "|", r.choice([[], [2]])])
+                    else:
+                        fields.append(["u%d" % i, "u", 1, "|", r.choice([[], [3]])])
+                for sh in ([r.choice([[], [2]])] if ctx.quick() else [[], [2], [2, 2], [0]]):
+                    pool.append((arr_case(r, {"fields": fields}, sh), "struct-all-subarray" if nelem(sh) else "zero-size"))
     n = ctx.n(70, 700) if round == 0 else ctx.n(60, 300)
     nonzero = [sh for sh in SHAPES if nelem(sh)]
     for i in range(n):
@@ -344,6 +359,9 @@ class Convert(Entry):
             combos = [(f, ip, kd) for f in FNS for ip in (False, True) for kd in (False, True)]
             if ctx.quick() and round == 0 and fam.startswith("plain"):
                 combos = r.sample(combos, 6)
+            if ctx.quick() and round == 0 and fam == "struct-all-subarray":
+                combos = [(f, ip, kd) for f in FNS for ip, kd in [r.choice([(False, False), (True, False), (False, True), (True, True)]),
+                                                                  (r.random() < 0.5, False)]]
             for f, ip, kd in combos:
                 cs.append({"fn": f, "inplace": ip, "keep": kd, "array": a, "family": fam})
         return cs
@@ -539,6 +557,13 @@ def sweep_pool():
                           for i, (k, s) in enumerate(combo)]
                 spec = {"fields": fields}
                 pool.append(({"dtype": spec, "shape": [2], "data": sweep_data(spec, [2])}, "sweep-struct%d" % nf))
+                if ordered:
+                    # the same layout with EVERY multi-byte field a (2,) sub-array (single-byte fields scalar)
+                    fields = [["f%d" % i, k, s, o if has_order(k, s) else "|", [2] if has_order(k, s) else []]
+                              for i, (k, s) in enumerate(combo)]
+                    spec2 = {"fields": fields}
+                    if spec2 != spec:
+                        pool.append(({"dtype": spec2, "shape": [2], "data": sweep_data(spec2, [2])}, "sweep-allsub%d" % nf))
     return pool
 
 
@@ -829,7 +854,315 @@ class Nested(Entry):
         return "nested/%s" % c["fn"]
 
 
-ENTRIES = [Convert(), NativeInplace(), Predicates(), Descr(), RecNative(), ViewConvert(), Nested()]
+# ----------------------------------------------------------------------------------------------
+# sequences: several calls in ONE process, arranged so that state carried across calls (a cache keyed by
+# record size + field names, by object identity, by dtype.str ...) would collide
+# ----------------------------------------------------------------------------------------------
+
+def _alts(total):
+    """field types occupying `total` bytes: (kind, itemsize, subshape)"""
+    out = []
+    for k, s in NUMERIC + [("S", 1), ("S", 2), ("S", 4), ("S", 8), ("U", 4), ("U", 8)]:
+        if s > total or total % s:
+            continue
+        n = total // s
+        if n == 1:
+            out.append((k, s, []))
+        else:
+            out.append((k, s, [n]))
+            if n == 4:
+                out.append((k, s, [2, 2]))
+    return out
+
+
+def twin_layouts(r, tag, count=2, nf=None):
+    """`count` structured layouts with the SAME field names and the same record size (so the same dtype.str '|V<n>'
+    and the same dtype.names) but independently chosen field types, sub-array shapes and byte orders"""
+    nf = nf or r.randrange(1, 4)
+    names = ["%s_%s" % (n, tag) for n in r.sample(NAMES, nf)]
+    totals = [r.choice([2, 4, 4, 8, 8, 16]) for _ in range(nf)]
+    out = []
+    for j in range(count):
+        for _try in range(20):
+            big = r.random() < 0.7 if j == 0 else r.random() < 0.5
+            fields = []
+            for nm, tot in zip(names, totals):
+                k, s, sub = r.choice(_alts(tot))
+                fields.append([nm, k, s, spell(r, big) if has_order(k, s) else "|", sub])
+            spec = {"fields": fields}
+            if spec not in out and any(has_order(f[1], f[2]) for f in fields):
+                out.append(spec)
+                break
+        else:
+            out.append(spec)
+    return out
+
+
+SEQ_FNS = FNS + ["rec_to_native", "to_native_inplace"]
+
+
+def seq_call(objs, st):
+    """run one step on the live objects; returns its canonical output (input state observed just before the call)"""
+    import numpy as np
+    import esutil.numpy_util as nu
+    import esutil.recfile.Util as U
+    a = objs[st["obj"]]
+    if st.get("refill") is not None:              # same OBJECT, contents changed in place
+        raw = np.frombuffer(bytes.fromhex(st["refill"]), dtype="u1")
+        a.reshape(-1).view("u1")[...] = raw[:a.nbytes]
+    before = describe(a)
+    fn = st["fn"]
+    if fn in CONV:
+        f = getattr(nu, fn)
+        ip, kd, call = st["inplace"], st["keep"], st.get("call", "kw")
+
+        def one(x):
+            if call == "default":                 # documented defaults: inplace=False, keep_dtype=False
+                return observe(f, x)
+            if call == "positional":
+                r_ = f(x, ip, kd)
+                return r_, {"res": describe(r_), "same": r_ is x, "shares": bool(r_ is x or np.shares_memory(r_, x)),
+                            "inp": describe(x)}
+            return observe(f, x, inplace=ip, keep_dtype=kd)
+        r1, o1 = one(a)
+        r2, o2 = one(r1)
+        return {"before": before, "o": [o1, o2]}
+    if fn == "rec_to_native":
+        r1, o1 = observe(U.to_native, a)
+        r2, o2 = observe(U.to_native, r1)
+        return {"before": before, "o": [o1, o2]}
+    if fn == "to_native_inplace":
+        outs = []
+        for _ in range(2):
+            if U.to_native_inplace(a) is not None:
+                raise Unrepresentable("to_native_inplace returned a value")
+            outs.append(describe(a))
+        return {"before": before, "o": outs}
+    if fn == "predicates":
+        return {"before": before, "o": [bool(nu.is_big_endian(a)), bool(nu.is_little_endian(a))]}
+    raise HarnessFault("unknown step function %r" % fn)
+
+
+def seq_step_guarded(objs, st):
+    return guarded_impl(lambda: seq_call(objs, st))
+
+
+def seq_term(st, out):
+    if "err" in out:
+        if out["err"] == "absent":
+            return "1%Z"
+        return "3%Z"
+    o = out["ok"]
+    b = o["before"]
+    fn = st["fn"]
+    if fn in CONV:
+        ip, kd = (False, False) if st.get("call") == "default" else (st["inplace"], st["keep"])
+        return "(v_conv %s %s %s %s %s %s %s)" % (ml(), CONV[fn], carr(b), cbool(ip), cbool(kd), cout(o["o"][0]), cout(o["o"][1]))
+    if fn == "rec_to_native":
+        return "(v_rec_native %s %s %s %s)" % (ml(), carr(b), cout(o["o"][0]), cout(o["o"][1]))
+    if fn == "to_native_inplace":
+        return "(v_native_inplace %s %s %s %s)" % (ml(), carr(b), carr(o["o"][0]), carr(o["o"][1]))
+    return "(v_pred %s %s %s %s)" % (ml(), cdtype(b["dtype"]), cbool(o["o"][0]), cbool(o["o"][1]))
+
+
+class Fresh:
+    """a pristine helper process (esutil imported, nothing called) that forks once per request: every call it answers
+    is made ALONE in a process whose module state no earlier call has touched"""
+
+    def __init__(self):
+        self.p = None
+
+    def start(self):
+        import subprocess
+        import sys
+        self.p = subprocess.Popen([sys.executable, "-m", "harness.props.c16_fresh"], stdin=subprocess.PIPE,
+                                  stdout=subprocess.PIPE, cwd=core.VERIF, text=True)
+
+    def ask(self, req):
+        import json
+        if self.p is None or self.p.poll() is not None:
+            self.start()
+        self.p.stdin.write(json.dumps(req) + "\n")
+        self.p.stdin.flush()
+        line = self.p.stdout.readline()
+        if not line:
+            raise HarnessFault("fresh-process helper died")
+        return json.loads(line)
+
+    def stop(self):
+        if self.p is not None:
+            try:
+                self.p.stdin.close()
+                self.p.wait(timeout=10)
+            except Exception:  # noqa
+                self.p.kill()
+            self.p = None
+
+
+FRESH = Fresh()
+
+
+class Sequence(Entry):
+    """several calls in one process: twin layouts (same names / record size, different types, sub-shapes, orders) through
+    each converter in both call orders; the same object again after its contents were changed in place and a different
+    object with equal contents; keyword defaults and positional arguments.  Every call is judged by model + checker on the
+    state observed just before it, and (sampled) compared with the same call made alone in a fresh process."""
+    name = "sequence"
+
+    def cases(self, ctx, round=0):
+        r = ctx.rng
+        cs = []
+        uid = [0]
+
+        def tag():
+            uid[0] += 1
+            return "q%d%s" % (uid[0], "r%d" % round if round else "")
+
+        def opts():
+            return r.random() < 0.5, r.random() < 0.3
+
+        # (b) twin layouts, every function, both call orders (fresh names per sequence: nothing left over from the
+        #     previous sequence can help or hide)
+        ntw = ctx.n(10, 50)
+        for i in range(ntw):
+            for fn in SEQ_FNS:
+                ip, kd = opts()
+                sh = r.choice([[], [1], [2], [3]])
+                for order in ("AB", "BA"):
+                    t = tag()
+                    rr = __import__("random").Random("%s/%d/%d/%d/%s" % (ctx.pid, ctx.seed, round, i, fn))
+                    lays = twin_layouts(rr, t, count=3 if i % 3 == 0 else 2)
+                    if order == "BA":
+                        lays = lays[::-1]
+                    objs = [arr_case(rr, sp, sh) for sp in lays]
+                    steps = [{"obj": j, "fn": fn, "inplace": ip, "keep": kd} for j in range(len(objs))]
+                    cs.append({"objects": objs, "steps": steps, "family": "twins-%s/%s" % (order, fn)})
+        # (b') plain twins: same item size, different kind / order
+        for i in range(ctx.n(6, 30)):
+            tot = r.choice([2, 4, 8, 16])
+            alts = [(k, s) for k, s in NUMERIC + UNICODE if s == tot and has_order(k, s)]
+            objs = []
+            for k, s in r.sample(alts, min(3, len(alts))):
+                objs.append(arr_case(r, {"plain": [k, s, r.choice(["<", ">", "="])]}, r.choice([[], [2], [2, 2]])))
+            fn = r.choice(SEQ_FNS)
+            ip, kd = opts()
+            cs.append({"objects": objs, "steps": [{"obj": j, "fn": fn, "inplace": ip, "keep": kd} for j in range(len(objs))],
+                       "family": "plain-twins/%s" % fn})
+        # (a) the same object again after its contents were changed in place; a different object with equal contents;
+        #     interleaved functions on one object
+        for i in range(ctx.n(14, 80)):
+            spec = gen_struct(r, r.choice(["uniform", "with-na", "with-na"])) if r.random() < 0.7 else \
+                {"plain": list(r.choice([t for t in NUMERIC if has_order(*t)])) + [r.choice(["<", ">", "="])]}
+            sh = r.choice([[], [2], [3]])
+            if rowsize(spec) * nelem(sh) > 300:
+                sh = []
+            a0 = arr_case(r, spec, sh)
+            fn = r.choice(SEQ_FNS)
+            ip, kd = opts()
+            steps = [{"obj": 0, "fn": fn, "inplace": ip, "keep": kd},
+                     {"obj": 0, "fn": fn, "inplace": ip, "keep": kd, "refill": gen_data(r, spec, sh, "random")},
+                     {"obj": 1, "fn": fn, "inplace": ip, "keep": kd},
+                     {"obj": 0, "fn": r.choice(SEQ_FNS), "inplace": not ip, "keep": kd},
+                     {"obj": 1, "fn": "predicates"}]
+            cs.append({"objects": [a0, dict(a0)], "steps": steps, "family": "same-object-refilled/%s" % fn})
+        # (e) keyword defaults / positional arguments
+        for i in range(ctx.n(8, 40)):
+            spec = gen_struct(r, r.choice(["uniform", "with-na"])) if r.random() < 0.6 else \
+                {"plain": list(r.choice([t for t in NUMERIC if has_order(*t)])) + [r.choice(["<", ">", "="])]}
+            a0 = arr_case(r, spec, r.choice([[], [2]]))
+            steps = []
+            for fn in FNS:
+                steps.append({"obj": 0, "fn": fn, "inplace": False, "keep": False, "call": "default"})
+                ip, kd = opts()
+                steps.append({"obj": 0, "fn": fn, "inplace": ip, "keep": kd, "call": "positional"})
+            cs.append({"objects": [a0], "steps": steps, "family": "defaults-positional"})
+        if not ctx.quick() and round == 0:
+            cs += sweep_sequences()
+        # sampled: every step also alone in a fresh process
+        nfresh = ctx.n(24, 150)
+        pick = set(r.sample(range(len(cs)), min(nfresh, len(cs))))
+        for i, c in enumerate(cs):
+            c["fresh"] = i in pick
+        return cs
+
+    def impl(self, c):
+        objs = [build(a) for a in c["objects"]]
+        outs = []
+        for st in c["steps"]:
+            if st["fn"] == "rec_to_native":
+                import esutil.recfile.Util as U
+                if not hasattr(U, "to_native"):
+                    outs.append({"err": "absent", "msg": "recfile.Util.to_native does not exist in this tree"})
+                    continue
+            out = seq_step_guarded(objs, st)
+            if c.get("fresh") and "ok" in out:
+                # the same call on the same input state, alone in a fresh process
+                alone = FRESH.ask({"array": out["ok"]["before"], "step": dict(st, obj=0, refill=None)})
+                out["history_independent"] = (alone == {"ok": out["ok"]})
+                if not out["history_independent"]:
+                    out["alone"] = alone
+            outs.append(out)
+        return outs
+
+    def term(self, c, outs):
+        ts = []
+        for st, out in zip(c["steps"], outs):
+            t = seq_term(st, out)
+            if out.get("history_independent") is False:     # differs from the call made alone: one of the two is not the model
+                t = "(Z.lor 1 %s)" % t
+            ts.append(t)
+        e = "0%Z"
+        for t in reversed(ts):
+            e = "(Z.lor %s %s)" % (t, e)
+        return e
+
+    def nontrivial(self, c, outs):
+        n = 0
+        for st, out in zip(c["steps"], outs):
+            if "ok" in out and st["fn"] != "predicates":
+                b = out["ok"]["before"]
+                first = out["ok"]["o"][0]
+                after = first["res"]["data"] if isinstance(first, dict) and "res" in first else first["data"]
+                if b["data"] and multibyte(b["dtype"]) and after != b["data"]:
+                    n += 1
+        return n >= 1 and len(c["steps"]) >= 2
+
+    def family(self, c):
+        return c.get("family", "sequence")
+
+
+def sweep_sequences():
+    """thorough tier: EVERY ordered pair of distinct one- and two-field layouts occupying the same bytes under the same
+    names (alphabet of 4-byte field types x both orders), through each of the six functions"""
+    alts = [("i", 4, []), ("f", 4, []), ("i", 2, [2]), ("U", 4, []), ("S", 4, []), ("u", 1, [4])]
+    lays = []
+    for k, s, sub in alts:
+        for o in (["<", ">"] if has_order(k, s) else ["|"]):
+            lays.append((k, s, o, sub))
+    cs = []
+    n = 0
+    for extra in (False, True):
+        for ia, A in enumerate(lays):
+            for ib, B in enumerate(lays):
+                if ia == ib:
+                    continue
+                fn = SEQ_FNS[n % len(SEQ_FNS)]
+                ip, kd = bool((n // 6) % 2), bool((n // 12) % 3 == 0)
+                n += 1
+                for f2 in ([fn] if n % 5 else SEQ_FNS):
+                    t = "w%d_%s" % (n, f2[:4])
+                    objs = []
+                    for k, s, o, sub in (A, B):
+                        fields = ([["s_" + t, "S", 3, "|", []]] if extra else []) + [["x_" + t, k, s, o, sub]]
+                        spec = {"fields": fields}
+                        objs.append({"dtype": spec, "shape": [2], "data": sweep_data(spec, [2])})
+                    cs.append({"objects": objs, "family": "sweep-twins/%s" % f2,
+                               "steps": [{"obj": 0, "fn": f2, "inplace": ip, "keep": kd},
+                                         {"obj": 1, "fn": f2, "inplace": ip, "keep": kd}]})
+    return cs
+
+
+ENTRIES = [Convert(), NativeInplace(), Predicates(), Descr(), RecNative(), ViewConvert(), Nested(), Sequence()]
 
 TRUSTED = [
     "Coq 8.16.1 kernel (coqc, vm_compute; no native_compute); every C16 theorem is closed under the global context (no axioms)",
@@ -895,4 +1228,7 @@ def run(ctx, replay=None):
         if not ok:
             return
     # 3. correspondence
-    differential(ctx, PRE, ENTRIES, replay)
+    try:
+        differential(ctx, PRE, ENTRIES, replay)
+    finally:
+        FRESH.stop()
